@@ -312,6 +312,54 @@ fn chunking<F: Family>(report: &Report, tier: Tier, key: &[u8; 40], kr: &KeyResu
     });
     report.count("chunk_whole_vs_bytewise_cases", evals.load(Ordering::Relaxed));
 
+    // (1b) EVERY call length 0..=300, and 511..=513, 1000, powers of two up to 4 MiB, from 64 start states
+    {
+        let stride = (kr.enc_states.len() / 64).max(1);
+        let starts: Vec<usize> = (0..kr.enc_states.len()).step_by(stride).take(64).collect();
+        let mut lens: Vec<usize> = (0..=300).collect();
+        lens.extend([511, 512, 513, 1000, 1023, 1024, 1025, 4096, 65_535, 65_536, 65_537, 1 << 20, (1 << 22) + 1]);
+        let n_len = AtomicU64::new(0);
+        starts.par_iter().enumerate().for_each(|(sn, &si)| {
+            let (es, ds) = (&kr.enc_states[si], &kr.dec_states[si]);
+            let mut n = 0u64;
+            for &l in &lens {
+                if l > 70_000 && sn >= 2 {
+                    continue; // the megabyte-sized calls from two start states only
+                }
+                let data: Vec<u8> = (0..l).map(|j| (j as u8).wrapping_mul(37) ^ (l as u8)).collect();
+                let mut whole = es.0.clone();
+                let mut a = data.clone();
+                F::enc(&mut whole, &mut a);
+                let mut rm = refmodel::cipher::Recurrence { key: rk.clone(), n: es.1 as usize, prev: es.2 };
+                let mut w = data.clone();
+                rm.enc(&mut w);
+                let mut tail_r = [0x77u8; 48];
+                rm.enc(&mut tail_r);
+                let mut tail = [0x77u8; 48];
+                F::enc(&mut whole, &mut tail);
+                let mut dwhole = ds.0.clone();
+                let mut b = data.clone();
+                F::dec(&mut dwhole, &mut b);
+                let mut rd = refmodel::cipher::Recurrence { key: rk.clone(), n: ds.1 as usize, prev: ds.2 };
+                let mut wd = data.clone();
+                rd.dec(&mut wd);
+                let mut dtail_r = [0x77u8; 48];
+                rd.dec(&mut dtail_r);
+                let mut dtail = [0x77u8; 48];
+                F::dec(&mut dwhole, &mut dtail);
+                if a != w || tail != tail_r {
+                    viol::<F>(report, "call-length-encrypt", "one-call-vs-reference", key, json!({"pos": es.1, "prev": es.2, "len": l}), format!("a single encrypt call of {l} bytes (or the 48 bytes after it) leaves the recurrence"));
+                }
+                if b != wd || dtail != dtail_r {
+                    viol::<F>(report, "call-length-decrypt", "one-call-vs-reference", key, json!({"pos": ds.1, "prev": ds.2, "len": l}), format!("a single decrypt call of {l} bytes (or the 48 bytes after it) leaves the inverse recurrence"));
+                }
+                n += 2;
+            }
+            n_len.fetch_add(n, Ordering::Relaxed);
+        });
+        report.count("call_length_cases", n_len.load(Ordering::Relaxed));
+    }
+
     // (2) every composition (with and without interleaved empty calls) of a 10-byte stream, from 64 start states,
     //     sender and receiver chunking independently (receiver uses the reversed composition)
     let n = 10usize;
@@ -527,6 +575,7 @@ pub fn run<F: Family>(tier: Tier, seed: u64) -> i32 {
         "{} keys; per key and direction the complete reachable state graph ({} states x 257 actions) to fixpoint; closed-loop (encrypter,decrypter) graph to fixpoint (holds for streams of unbounded length for these keys)",
         keys.len(), klen * 256
     ));
+    report.space("every call length 0..=300, 511..513, 1000, 1023..1025, 4096, 65535..65537, 2^20, 2^22+1 from 64 start states, followed by 48 more bytes, against the reference");
     report.space("chunking: from every reachable state, one L-byte call vs L one-byte calls for L in {2,3,4,6,19,20,21,39,40,41,80,81,255} x 4 contents; all 512 compositions of a 10-byte stream (with/without empty calls) from 64 start states, receiver chunking differently from sender");
     report.assume("the step at position i reads the key only at index i (checked on these keys only); session keys outside the alphabet are not explored");
     if F::ID == "C08" {
